@@ -23,18 +23,22 @@ META = dict(
               'validated against the CPython built-ins (exhaustive slice.indices, generated histories); step-level correspondence of the model against pg.List/pg.Dict '
               'with read-back after every step; differential oracle against a plain list/dict driven by the same operation',
     design_ref='DESIGN.md §5 C02, design/C02.md',
-    level_text=('Theorems (22): for a pg.List / pg.Dict at ANY position of a well-formed forest (C01\'s full invariant) and plain arguments, every operation of the list/dict '
+    level_text=('Theorems (28): for a pg.List / pg.Dict at ANY position of a well-formed forest (C01\'s full invariant) and plain arguments, every operation of the list/dict '
                 'API -- all 15 list and 9 dict operations of the base catalogue, slice assignment / deletion with any start/stop/step, d | m, m | d, rebind with one or several '
-                'paths of any length (applied highest path first on lists; nested update of the plain value) -- leaves the erasure of the target equal to the Python reference '
+                'paths of any length (applied highest path first on lists; nested update of the plain value); item assignment / append / insert / dict item assignment with ANY '
+                'argument (a literal, a value with a parent = copied, a root of another tree = adopted, the container itself, an opaque object) incl. histories whose arguments '
+                'are read from the list itself -- leaves the erasure of the target equal to the Python reference '
                 'step on the erasure before, with the same return value / error class, and re-establishes the invariants; by induction for every finite history, also from any '
                 'constructed literal; the four documented extensions as equations; the read API (len, indexing, slicing, in/index/count, ==, keys, to_json) computed on a tree '
                 'equals the same computed on its erasure. Tie: (a) PyList/PyDict vs the built-in list/dict (slice.indices for every start/stop/step in -7..7 or None on '
                 'lengths 0..6, every slice shape on short lists, generated histories over the whole API); (b) SymCoreC02.run vs pg.List/pg.Dict on generated histories incl. '
-                'read-back after every step, a multi-path rebind sweep on lists of 0..13 elements; (c) direct differential oracle on every step plus systematic slice, '
+                'read-back after every step, a multi-path rebind sweep on lists of 0..13 elements, a self-reference sweep (argument = target / its root / child / descendant / other '
+                'root, every index class); (c) direct differential oracle on every step plus systematic slice, '
                 'update-key, iterable-kind and aliasing sweeps.'),
     level_note=('Trusted: Coq kernel; extraction (ExtrOcamlBasic) cross-checked against vm_compute; the drivers and generators. Modelled, not verified: the Python code '
-                '(tied by the correspondence only). Proved only for plain (literal) arguments: arguments that are existing symbolic nodes (adopted or copied at write time), '
-                'opaque objects as written values and MISSING_VALUE written into a list by rebind are covered by the correspondence and the oracle only. Not modelled: value '
+                '(tied by the correspondence only). Arguments that are existing symbolic nodes or opaque objects are proved for item assignment / append / insert / dict item '
+                'assignment (weaker frame: nothing is claimed about the other roots; an opaque object written over itself needs equal tags); for extend / += / update / '
+                'setdefault / slices / rebind they and MISSING_VALUE written into a list by rebind are covered by the correspondence and the oracle only. Not modelled: value '
                 'specs (C03), change events (C09), pg.Ref / inferential values, sort with a user key function that raises.'),
     rule='a case is a history (initial contents, list of operations [with scopes and read-back probes]) or one slice.indices query; distinct by canonical text; '
          'non-trivial when at least one mutating operation succeeds on a non-empty container',
@@ -727,7 +731,20 @@ class Oracle:
       for v in D.op_values(op):
         if not D.value_ok(v): return None
       if any(holds_target(v) for v in D.op_values(op)):
-        self.stat('skipped:argument-contains-the-target'); return None
+        if op[0] not in (D.LSET, D.LAPPEND, D.LINSERT, D.DSET):
+          # (setdefault returns its argument -- the target itself, as dict does; a batch applies its writes one after the other)
+          self.stat('skipped:argument-contains-the-target'); return None
+        def has_sym(x):
+          if isinstance(x, Ins): return has_sym(x.v)
+          if isinstance(x, dict): return any(has_sym(y) for y in x.values())
+          if isinstance(x, list): return any(has_sym(y) for y in x)
+          return D.is_sym(x)
+        if has_sym(plain_value(impl, D.op_values(op)[0])):
+          # a pg.Object on the way: it has no plain counterpart, the reference would hold the object itself
+          self.stat('skipped:argument-contains-the-target'); return None
+        # one argument that is (or contains) the target: pg stores a copy of what the argument denotes when the call starts
+        # (C02_refines_python_reference_arguments_*); the reference below is driven with a deep plain copy taken before the call
+        self.stat('compared:argument-contains-the-target')
       def in_target_tree(v):
         if v[0] == 2: return in_target_tree(v[1])
         return v[0] == 1 and v[1] == op[1][0]
@@ -982,6 +999,47 @@ def rebind_sweep_cases(rng, per_len, quirks):
       cases.append(([3, list(quirks), [D.mk(x) for x in init], steps], layout))
   return cases
 
+def self_reference_sweep_cases(quirks):
+  """Writes whose argument is read from the target's own tree (or is the target, its root, another root): l.append(l[i]),
+  l[i] = l[j][k], l.insert(i, l), d[k] = d, d[k] = d[j] ... on a root list, a list inside a dict and a dict; every index class
+  (each position, negative, the end, far past the end), followed by a plain write into the stored copy's source to show that the
+  copy is not an alias.  Compared with a plain list / dict driven with the value the argument denotes when the call starts."""
+  cases = []
+  lst = [1, {'a': 2}, [3, [4]], 'b']
+  layouts = [('root-list', [lst, {'k': [0]}], (0,)), ('list-in-dict', [{'l': lst, 'z': 0}, [9]], (0, 'l'))]
+  for name, init, tp in layouts:
+    pos = D.P(*tp)
+    n = len(lst)
+    args = [('self', D.R(*tp)), ('other-root', D.R(1))] + [('child', D.R(*tp, i)) for i in range(n)] + \
+           [('deeper', D.R(*tp, 1, 'a')), ('deeper', D.R(*tp, 2, 1)), ('deeper', D.R(*tp, 2, 1, 0))]
+    if len(tp) > 1: args.append(('own-root', D.R(tp[0])))
+    for what, a in args:
+      ops = [('append', [D.LAPPEND, pos, a])]
+      ops += [('setitem', [D.LSET, pos, i, a]) for i in (0, 1, 2, 3, -1, -4, 4, -5)]
+      ops += [('insert', [D.LINSERT, pos, i, a]) for i in (0, 1, 2, -1, 4, 9, -9)]
+      for oname, op in ops:
+        follow = [D.DSET, D.P(*tp, 1), 0, D.enc_key('a'), D.V(77)]      # the source dict changes: a stored copy must not
+        for scope in (NS, D.sc(notify=[False])):
+          probes = [list(range(-n - 3, n + 3)), [[[], [], [-1]], [[1], [], [2]]], [[0, [2, 1]], [0, [2, 2]]], [D.enc_key('a'), D.enc_key('l')]]
+          steps = [[scope, op, probes], [NS, follow, default_probes()], [NS, [D.LAPPEND, pos, D.V(5)], probes]]
+          cases.append(([3, list(quirks), [D.mk(x) for x in init], steps], '%s:%s:%s' % (name, oname, what)))
+  dct = {'a': 1, 'b': {'c': [1, 2]}, 'l': [5, {'x': 6}]}
+  for name, init, tp in [('root-dict', [dct, [7]], (0,)), ('dict-in-dict', [{'d': dct, 'z': 0}, [7]], (0, 'd'))]:
+    pos = D.P(*tp)
+    args = [('self', D.R(*tp)), ('other-root', D.R(1)), ('child', D.R(*tp, 'a')), ('child', D.R(*tp, 'b')), ('child', D.R(*tp, 'l')),
+            ('deeper', D.R(*tp, 'b', 'c')), ('deeper', D.R(*tp, 'l', 1)), ('deeper', D.R(*tp, 'l', 1, 'x'))]
+    if len(tp) > 1: args.append(('own-root', D.R(tp[0])))
+    for what, a in args:
+      for k in ('a', 'b', 'l', 'new'):
+        for attr in (0, 1):
+          for scope in (NS, D.sc(notify=[False])):
+            follow = [D.LAPPEND, D.P(*tp, 'l'), D.V(88)]
+            probes = [[], [], [[0, [2, 1]]], [D.enc_key('a'), D.enc_key('b'), D.enc_key('l'), D.enc_key('new')]]
+            steps = [[scope, [D.DSET, pos, attr, D.enc_key(k), a], probes], [NS, follow, default_probes()],
+                     [NS, [D.DSETDEFAULT, pos, D.enc_key('new'), a], probes]]
+            cases.append(([3, list(quirks), [D.mk(x) for x in init], steps], '%s:setitem:%s' % (name, what)))
+  return cases
+
 def default_probes(n=4):
   return [list(range(-n - 1, n + 1)), [[[], [], [-1]], [[1], [], [2]], [[], [-1], []]], [[0, [2, 1]], [1, 1, [[[1, 0], [0, [2, 1]]]]]],
           [D.enc_key('a'), D.enc_key('a.b'), D.enc_key(0)]]
@@ -1200,11 +1258,15 @@ def py_snippet(case):
   return ('import sys; sys.path[:0] = ["/verif", "/repo"]\nfrom harness.props import c02, symcore_driver as D\nfrom harness.lib import tr\n'
           'case = tr.parse_line(%r)\norc = c02.Oracle()\nc02.run_case2(case, hook=orc)\nprint(orc.hits)\n' % trlib.to_line(case))
 
+HANGS = [0]      # cases in which the watchdog fired during this run (only the first one is run again with a long limit; the run stops comparing after the third)
 def run_oracle_case(ctx, case, kind):
   orc = Oracle()
   try:
     out = run_case2(case, hook=orc)
-    if any(step[0] == [1, D.ERR_HANG] for step in out[1]):
+    hung = any(step[0] == [1, D.ERR_HANG] for step in out[1])
+    if hung:
+      HANGS[0] += 1
+    if hung and HANGS[0] <= 1:
       # the watchdog of the shared driver fired: on a loaded machine (or inside a long garbage collection) that is not a hang -- run the case again with a long limit
       old = D.WATCHDOG_S
       D.WATCHDOG_S = 120.0
@@ -1273,9 +1335,22 @@ def run(ctx):
     ctx.hist('rebind_sweep_list_len', len(c[2][0][4]) if layout == 'root-list' else len(c[2][0][4][0][1][4]))
   ctx.extra['rebind_sweep'] = dict(cases=len(rb_cases), what='multi-path rebind on lists of 0..13 elements: 2-4 paths of replace / Insertion / MISSING_VALUE / past-the-end / nested-dict writes, '
                                    'indices from {0,1,2,9,10,11,len-1,len,len+1,-1,-2,-len}; list as root, inside a dict, or reached through a dict target')
+  sr_cases = self_reference_sweep_cases(quirks)
+  for c, what in sr_cases:
+    cases_b.append(c); kinds.append('self-reference-sweep')
+    ctx.hist('self_reference_sweep', what.rsplit(':', 1)[1])
+  ctx.extra['self_reference_sweep'] = dict(cases=len(sr_cases), what='append / item assignment (every index class) / insert / dict item assignment whose argument is the target itself, '
+                                           'its root, a child, a deeper descendant or another root; list as root or inside a dict, dict as root or inside a dict; with and without notification; '
+                                           'followed by a write into the source to show the stored value is a copy')
   impl_b = []
   stats = {}
-  for case, kind in zip(cases_b, kinds):
+  HANGS[0] = 0
+  for i_case, (case, kind) in enumerate(zip(cases_b, kinds)):
+    if HANGS[0] >= 3:
+      # the implementation under test hangs again and again (each costs the watchdog limit): what ran so far already shows it
+      ctx.extra['stopped_after_hangs'] = dict(ran=i_case, of=len(cases_b))
+      del cases_b[i_case:], kinds[i_case:]
+      break
     out, orc = run_oracle_case(ctx, case, kind)
     impl_b.append(out)
     for k, v in orc.stats.items():
